@@ -9,6 +9,8 @@ R_COPY = Rule("E5", r"ptr::copy_nonoverlapping\(bytes\.as_ptr\(\), address, ([^;
               "raw copy into the mapping -> stub (count kept)")
 R_FILL = Rule("E4", r"for element in slice::from_raw_parts_mut\((\w+), (\w+)\) \{\s*\*element = (\w+);\s*\}", r"fill_region(\1, \2, \3, %s);" % M,
               "fill loop over a raw mutable slice -> stub stating exactly that (pointer non-null and inside the mapping stay obligations)")
+R_FILL2 = Rule("E4b", r"slice::from_raw_parts_mut\((\w+), (\w+)\)\.fill\((\w+)\)", r"fill_region(\1, \2, \3, %s)" % M,
+               "`[u8]::fill` over a raw mutable slice -> the same stub as the fill loop")
 R_SLICE = Rule("E6", r"slice::from_raw_parts\(self\.ptr, self\.length\)", "raw_slice(self.ptr, self.length, Tracked(&*m))", "std::slice::from_raw_parts -> stub with std's safety contract")
 R_DUP = AppendArg("B15", r"libc::dup\(", M, "dup stub", rename="k_dup")
 R_FDUP = AppendArg("B15b", r"libc::fcntl\(", M, "fcntl(F_DUPFD_CLOEXEC) stub", rename="k_fcntl_dup")
@@ -53,7 +55,7 @@ from_byte = Fn(F, ["impl OsIpcSharedMemory", "from_byte"], ret="r", extra_params
                 "    assert((fill + Seq::<u8>::empty()).subrange(0, length as int) =~= fill);\n"
                 "    assert(z.subrange(0, 0) =~= fill.subrange(0, 0));\n"
                 "}", "unix.shm.from_byte/ensures.reads_back_the_fill")],
-    rules=[R_MAP, R_NEW, R_FILL], safety_props=["C18"])
+    rules=[R_MAP, R_NEW, R_FILL, R_FILL2], safety_props=["C18"])
 
 clone = Fn(F, ["impl Clone for OsIpcSharedMemory", "clone"], ret="r", extra_params=TM,
     requires=[Clause("unix.shm.clone/requires.wf", "self.wf(*old(m))")],
